@@ -43,6 +43,8 @@ type c16Edit struct {
 var c16LineFaults = map[string]string{
 	"missing-include":                    "##!> include nosuchfile",
 	"missing-exclude":                    "##!> include-except inc1 nosuchexclude",
+	"missing-include-absolute-path":      "##!> include <<W>>/crs/regex-assembly/include/nosuchfile",
+	"missing-exclude-absolute-path":      "##!> include-except inc1 <<W>>/crs/regex-assembly/exclude/nosuchexclude.ra",
 	"missing-exclude-after-all-excluded": "##!> include-except onlyone ex-all nosuchexclude",
 	"unparsable-entry":                   "a(b[",
 	"unparsable-prefix":                  "##!^ [z-a]",
